@@ -216,6 +216,53 @@ func c05Visitor(ctx *Ctx, r *Report) {
 		}
 	}
 	r.Floor("type-bearing IR positions", 9)
+
+	// the default traversal of each container must be unconditional: a child is not skipped
+	// because of its kind
+	for m, fd := range methods {
+		parents := parentMap(fd)
+		ast.Inspect(fd.Body, func(n ast.Node) bool {
+			call, ok := n.(*ast.CallExpr)
+			if !ok {
+				return true
+			}
+			fn := callee(info, call)
+			if _, isVisit := methods[fn]; fn == nil || !isVisit {
+				return true
+			}
+			if m.Name() == "VisitType" || m.Name() == "VisitSchemas" {
+				return true // the kind dispatcher itself
+			}
+			bad := ""
+			for _, c := range enclosingConds(parents, call) {
+				if mentionsKindTest(info, c.stmt.Cond) {
+					bad = exprString(c.stmt.Cond)
+				}
+			}
+			for _, l := range enclosingLoops(parents, call) {
+				var body *ast.BlockStmt
+				switch x := l.(type) {
+				case *ast.RangeStmt:
+					body = x.Body
+				case *ast.ForStmt:
+					body = x.Body
+				}
+				for _, st := range body.List {
+					if st.Pos() >= call.Pos() {
+						break
+					}
+					if is, ok := st.(*ast.IfStmt); ok && len(is.Body.List) > 0 && mentionsKindTest(info, is.Cond) {
+						if br, ok := is.Body.List[len(is.Body.List)-1].(*ast.BranchStmt); ok && (br.Tok == token.CONTINUE || br.Tok == token.BREAK) {
+							bad = exprString(is.Cond)
+						}
+					}
+				}
+			}
+			r.Check(bad == "", "traverse/visitor-unconditional", ctx.FuncName(m)+" visits "+exprString(call.Args[len(call.Args)-1]), call.Pos(), "children are visited whatever their kind",
+				"the default traversal skips children depending on their kind ("+bad+"): constructs nested in the skipped children are invisible to every visitor-based pass")
+			return true
+		})
+	}
 }
 
 // ---------------------------------------------------------------------------
